@@ -82,8 +82,8 @@ impl C10 {
             seed,
             // 10 correction contexts x 2^17 values, 16 bit widths of plain values, 7 x 2 flags
             n_single: 10 + 16 + 1,
-            n_random: scaled(tier.pick(400, 40_000), scale),
-            n_real: scaled(tier.pick(300, 20_000), scale),
+            n_random: scaled(tier.pick(6_000, 150_000), scale),
+            n_real: scaled(tier.pick(3_000, 60_000), scale),
         }
     }
 
